@@ -388,7 +388,9 @@ def grouping_loop(t0: int, t1: int, t2: int, t3: int, t4: int, t5: int) -> bool:
         if j == 0:
             ok = ok and prev is None and bc == 0 and sc == 0
         else:
-            ok = ok and prev is out[j - 1] and bc == 100 + (j - 1) and sc == 200 + (j - 1)
+            # a cursor is an optimisation: any value not beyond the one returned for the previous
+            # group is valid (0 is always valid)
+            ok = ok and prev is out[j - 1] and 0 <= bc <= 100 + (j - 1) and 0 <= sc <= 200 + (j - 1)
         ok = ok and isinstance(out[j], _Sentinel) and out[j].j == j
     return done(ok)
 
@@ -410,17 +412,47 @@ class RecTempo:
         return AbsTime(us), idx
 
 
-def note_event_dataflow(i0: int, u0: int, i1: int, u1: int, tick: int, R: int,
-                        hint_in: int, spc_in: int, us1: int, idx1: int, us2: int, idx2: int,
-                        spc_out: int, has_prev: bool) -> bool:
+class FuncTempo:
+    """Duck-typed *functional* tempo map with the real one's contract (S5): two segments split at
+    `tb`; time and governing index are functions of the tick; a hint beyond the governing index or
+    a negative tick is rejected with ValueError.  Oracles compare stored values with F/G, so any
+    implementation that asks valid questions (whatever hints, however many calls) passes."""
+
+    def __init__(self, resolution, tb):
+        self.resolution = resolution
+        self.tb = tb
+        self.calls = []
+
+    def G(self, tick):
+        return 1 if tick >= self.tb else 0
+
+    def F(self, tick):
+        if tick < self.tb:
+            return 7 * tick + 3
+        return 7 * self.tb + 3 + 13 * (tick - self.tb)
+
+    def timestamp_at_tick(self, tick, *, start_iteration_index=0):
+        self.calls.append((tick, start_iteration_index))
+        if tick < 0 or start_iteration_index > self.G(tick) or start_iteration_index < 0:
+            raise ValueError("hint beyond the governing tempo event (or negative tick)")
+        return AbsTime(self.F(tick)), self.G(tick)
+
+    def timestamp_at_tick_no_optimize_return(self, tick):
+        return self.timestamp_at_tick(tick)[0]
+
+
+def note_event_dataflow(i0: int, u0: int, i1: int, u1: int, tick: int, R: int, tb: int,
+                        hint_in: int, spc_in: int, spc_out: int, has_prev: bool) -> bool:
     """
     pre: _sus_pre(2, [i0, i1, 0, 0], [u0, u1, 0, 0])
-    pre: tick >= 0
+    pre: tick >= 0 and tb > 0
+    pre: 0 <= hint_in <= 1 and (hint_in == 0 or tick >= tb) and spc_in >= 0
     post: _
     """
+    # the hint handed in is valid for this tick (as the builder loop guarantees for sorted input)
     idx, sus = [i0, i1], [u0, u1]
     datas = [PD(tick=tick, note_track_index=nti(idx[k]), sustain=sus[k]) for k in range(2)]
-    tempo = RecTempo(R, [(us1, idx1), (us2, idx2)])
+    tempo = FuncTempo(R, tb)
     sp_events = [object()]
     prev = None
     if has_prev:
@@ -456,14 +488,13 @@ def note_event_dataflow(i0: int, u0: int, i1: int, u1: int, tick: int, R: int,
         if idx[k] <= 4 or idx[k] == 7:
             if mx is None or sus[k] > mx:
                 mx = sus[k]
-    ok = len(tempo.calls) == 2 and len(hopo_calls) == 1 and len(sp_calls) == 1
+    ok = len(hopo_calls) == 1 and len(sp_calls) == 1
     if not ok:
         return done(False)
-    # start time: own tick, hint received; end time: tick + longest sustain, hint returned by start
-    ok = ok and tempo.calls[0][0] == tick and tempo.calls[0][1] == hint_in
-    ok = ok and tempo.calls[1][0] == tick + mx and tempo.calls[1][1] == idx1
-    ok = ok and ev.tick == tick and ev.timestamp.us == us1 and ev.end_timestamp.us == us2
-    ok = ok and ev._proximal_bpm_event_index == idx1 and bc == idx1 and sc == spc_out
+    # start time = tempo-map time of the own tick, end time = that of tick + longest sustain
+    ok = ok and ev.tick == tick and ev.timestamp.us == tempo.F(tick) and ev.end_timestamp.us == tempo.F(tick + mx)
+    # the cursor handed back must be usable for the next (later) note: not beyond this tick's index
+    ok = ok and 0 <= bc and bc <= tempo.G(tick) and sc == spc_out
     ok = ok and ev.note is want_note and ev.sustain == want_sus and type(ev.sustain) is type(want_sus)
     ok = ok and ev.hopo_state is HOPOState.HOPO and ev.star_power_data is sp_sentinel
     # flags and collaborators' arguments
@@ -473,5 +504,5 @@ def note_event_dataflow(i0: int, u0: int, i1: int, u1: int, tick: int, R: int,
     ok = ok and len(h) == 6 and h[0] == R and h[1] == tick and h[2] is want_note
     ok = ok and h[3] == is_tap and h[4] == is_forced and h[5] is prev
     s = sp_calls[0]
-    ok = ok and s[0] == tick and s[1] is sp_events and s[2] == spc_in
+    ok = ok and s[0] == tick and s[1] is sp_events and 0 <= s[2] and s[2] <= spc_in
     return done(ok)
